@@ -210,28 +210,31 @@ def Policy.styleRulesFor (p : Policy) (el : Bytes) : StyleRules :=
       rules.foldl (fun acc (k, v) => acc.update k [] (· ++ v)) acc) []
   else sps
 
+/-- `decLoop` for one declaration: is it kept?  (`sps` = the element's style rules) -/
+def Policy.declAccepted (p : Policy) (sps : StyleRules) (dec : Css.Decl) : Bool :=
+  match removeUnicode (toLowerGo dec.value) with
+  | none => false          -- an escape that cannot be decoded: `continue`
+  | some tempValue =>
+    let tempProperty := trimPrefixes (toLowerGo dec.property) vendorPrefixes
+    (match sps.get? tempProperty with
+     | some spl => stylePoliciesAccept spl tempValue
+     | none => false) ||
+    (match p.globalStyles.get? tempProperty with
+     | some spl => stylePoliciesAccept spl tempValue
+     | none => false)
+
+/-- the value handed to the declaration parser: trailing spaces trimmed, `;` appended -/
+def styleSource (val : Bytes) : Bytes :=
+  let v := trimRightSpaces val
+  if v.length > 0 && v.getLast? != some 59 then v ++ [59] else v
+
 /-- the new value of the style attribute (`""` = drop it) -/
 def Policy.sanitizeStyles (p : Policy) (val : Bytes) (el : Bytes) : Bytes :=
-  let sps := p.styleRulesFor el
-  let v := trimRightSpaces val
-  let v := if v.length > 0 && v.getLast? != some 59 then v ++ [59] else v
-  match Css.parseDeclarations v with
+  match Css.parseDeclarations (styleSource val) with
   | none => []
   | some decs =>
-    let clean := decs.filterMap fun dec =>
-      let tempProperty := trimPrefixes (toLowerGo dec.property) vendorPrefixes
-      match removeUnicode (toLowerGo dec.value) with
-      | none => none
-      | some tempValue =>
-      let ok :=
-        (match sps.get? tempProperty with
-         | some spl => stylePoliciesAccept spl tempValue
-         | none => false) ||
-        (match p.globalStyles.get? tempProperty with
-         | some spl => stylePoliciesAccept spl tempValue
-         | none => false)
-      if ok then some (dec.property ++ b!": " ++ dec.value) else none
-    joinBytes b!"; " clean
+    joinBytes b!"; "
+      ((decs.filter (p.declAccepted (p.styleRulesFor el))).map fun d => d.property ++ b!": " ++ d.value)
 
 /-! ### sanitizeAttrs -/
 
@@ -289,58 +292,64 @@ def splitAsciiWs : Bytes → Bytes → List Bytes
     if isAsciiSpace c then (if cur.isEmpty then [] else [cur.reverse]) ++ splitAsciiWs cs []
     else splitAsciiWs cs (c :: cur)
 
+/-- `asciiEqualFold` -/
+def asciiEqualFold (a b : Bytes) : Bool := lowerAscii a == lowerAscii b
+
 /-- `hasRelToken` -/
-def hasRelToken (rel tok : Bytes) : Bool := (splitAsciiWs rel []).any (equalFold · tok)
+def hasRelToken (rel tok : Bytes) : Bool := (splitAsciiWs rel []).any (asciiEqualFold · tok)
 
-structure RelState where
-  noFollowFound : Bool := false
-  noReferrerFound : Bool := false
-  targetBlankFound : Bool := false
-  out : List Attr := []
+/-- append a link type to a rel value unless it is already one of its tokens -/
+def addRelToken (need : Bool) (tok : Bytes) (v : Bytes) : Bytes :=
+  if need && !hasRelToken v tok then v ++ 32 :: tok else v
 
-/-- the link-hardening block (`switch elementName { case "a", "area", "base", "link": … }`) -/
+/-- the first sub-pass on a `rel` attribute -/
+def relFix (addNoFollow addNoReferrer : Bool) (a : Attr) : Attr :=
+  if a.key == b!"rel" && (addNoFollow || addNoReferrer) then
+    ⟨a.key, addRelToken addNoReferrer b!"noreferrer" (addRelToken addNoFollow b!"nofollow" a.val)⟩
+  else a
+
+/-- under AddTargetBlank…: the first `target` attribute becomes `_blank` unless it already
+    is (ASCII case-insensitively); later ones are left alone -/
+def fixFirstTarget : List Attr → List Attr
+  | [] => []
+  | a :: as =>
+    if a.key == b!"target" then
+      (if asciiEqualFold a.val b!"_blank" then a else ⟨a.key, b!"_blank"⟩) :: as
+    else a :: fixFirstTarget as
+
+/-- the noopener sub-pass -/
+def addNoOpener (clean : List Attr) : List Attr :=
+  if clean.any (·.key == b!"rel") then
+    clean.map fun a => if a.key == b!"rel" then ⟨a.key, addRelToken true b!"noopener" a.val⟩ else a
+  else clean ++ [⟨b!"rel", b!"noopener"⟩]
+
+/-- the link-hardening block (`switch elementName { case "a", "area", "base", "link": … }`).
+    The Go code does this in one loop with three flags; written here as what that loop
+    computes (validated by the `directed` C11 family over all option sets). -/
 def Policy.hardenLinks (p : Policy) (el : Bytes) (clean : List Attr) : List Attr :=
   let hrefs := clean.filter (·.key == b!"href")
-  let hrefFound := !hrefs.isEmpty
   let externalLink := hrefs.any fun a => match Url.parse a.val with
     | some u => !u.host.isEmpty
     | none => false
-  if !hrefFound then clean else
+  if hrefs.isEmpty then clean else
   let addNoFollow := p.requireNoFollow || (externalLink && p.requireNoFollowFullyQualifiedLinks)
   let addNoReferrer := p.requireNoReferrer || (externalLink && p.requireNoReferrerFullyQualifiedLinks)
   let addTargetBlank := externalLink && p.addTargetBlankToFullyQualifiedLinks
-  let st := clean.foldl (fun (st : RelState) a =>
-    if a.key == b!"rel" && (addNoFollow || addNoReferrer) then
-      let v := a.val
-      let v := if addNoFollow && !hasRelToken v b!"nofollow" then v ++ b!" nofollow" else v
-      let v := if addNoReferrer && !hasRelToken v b!"noreferrer" then v ++ b!" noreferrer" else v
-      { st with noFollowFound := addNoFollow, noReferrerFound := addNoReferrer,
-                out := st.out ++ [⟨a.key, v⟩] }
-    else if el == b!"a" && a.key == b!"target" then
-      let found := st.targetBlankFound || equalFold a.val b!"_blank"
-      if addTargetBlank && !found then
-        { st with targetBlankFound := true, out := st.out ++ [⟨a.key, b!"_blank"⟩] }
-      else { st with targetBlankFound := found, out := st.out ++ [a] }
-    else { st with out := st.out ++ [a] }) ({} : RelState)
-  let clean := if st.noFollowFound || st.noReferrerFound || st.targetBlankFound then st.out else clean
-  let clean :=
-    if (addNoFollow && !st.noFollowFound) || (addNoReferrer && !st.noReferrerFound) then
+  let isA := el == b!"a"
+  let hasRel := clean.any (·.key == b!"rel")
+  let hasTarget := clean.any (·.key == b!"target")
+  let out := clean.map (relFix addNoFollow addNoReferrer)
+  let out := if isA && addTargetBlank then fixFirstTarget out else out
+  let out :=
+    if (addNoFollow || addNoReferrer) && !hasRel then
       let v := if addNoFollow then b!"nofollow" else []
       let v := if addNoReferrer then (if !v.isEmpty then v ++ [32] else v) ++ b!"noreferrer" else v
-      clean ++ [⟨b!"rel", v⟩]
-    else clean
-  let (clean, targetBlankFound) :=
-    if el == b!"a" && addTargetBlank && !st.targetBlankFound then
-      (clean ++ [⟨b!"target", b!"_blank"⟩], true)
-    else (clean, st.targetBlankFound)
-  if targetBlankFound then
-    if clean.any (·.key == b!"rel") then
-      clean.map fun a =>
-        if a.key == b!"rel" then
-          if hasRelToken a.val b!"noopener" then a else ⟨a.key, a.val ++ b!" noopener"⟩
-        else a
-    else clean ++ [⟨b!"rel", b!"noopener"⟩]
-  else clean
+      out ++ [⟨b!"rel", v⟩]
+    else out
+  let blankFound := isA &&
+    ((clean.any fun a => a.key == b!"target" && asciiEqualFold a.val b!"_blank") || (addTargetBlank && hasTarget))
+  let out := if isA && addTargetBlank && !blankFound then out ++ [⟨b!"target", b!"_blank"⟩] else out
+  if blankFound || (isA && addTargetBlank) then addNoOpener out else out
 
 def isCrossOriginElement (el : Bytes) : Bool :=
   el == b!"audio" || el == b!"img" || el == b!"link" || el == b!"script" || el == b!"video"
@@ -351,41 +360,49 @@ def dedupKeep (allowed : List Bytes) : List Bytes → List Bytes → List Bytes
     if allowed.contains v && !acc.contains v then dedupKeep allowed vs (v :: acc)
     else dedupKeep allowed vs acc
 
+/-- overwrite the value of every attribute named `k` -/
+def setVal (k : Bytes) (v : Attr → Bytes) (a : Attr) : Attr := if a.key == k then ⟨a.key, v a⟩ else a
+
+/-- the `requireCrossOriginAnonymous` block -/
+def Policy.forceCrossOrigin (p : Policy) (el : Bytes) (clean : List Attr) : List Attr :=
+  if p.requireCrossOriginAnonymous && clean.length > 0 && isCrossOriginElement el then
+    if clean.any (·.key == b!"crossorigin") then
+      clean.map (setVal b!"crossorigin" fun _ => b!"anonymous")
+    else clean ++ [⟨b!"crossorigin", b!"anonymous"⟩]
+  else clean
+
+/-- the `requireSandboxOnIFrame` block -/
+def Policy.forceSandbox (p : Policy) (el : Bytes) (clean : List Attr) : List Attr :=
+  match p.requireSandboxOnIFrame with
+  | some allowed =>
+    if el == b!"iframe" then
+      if clean.any (·.key == b!"sandbox") then
+        clean.map (setVal b!"sandbox" fun a => joinBytes [32] (dedupKeep allowed (fields a.val) []))
+      else clean ++ [⟨b!"sandbox", []⟩]
+    else clean
+  | none => clean
+
+/-- the URL pass and the link-hardening pass (`if linkable(elementName) { … }`);
+    `none` = panic -/
+def Policy.linkPasses (p : Policy) (el : Bytes) (clean : List Attr) : Option (List Attr) :=
+  if linkable el then
+    let afterUrl : Option (List Attr) :=
+      if p.requireParseableURLs then mapMOpt (p.urlPassAttr el) clean else some clean
+    afterUrl.map fun clean =>
+      if (p.requireNoFollow || p.requireNoFollowFullyQualifiedLinks || p.requireNoReferrer ||
+          p.requireNoReferrerFullyQualifiedLinks || p.addTargetBlankToFullyQualifiedLinks) &&
+          clean.length > 0 && isHrefElement el then
+        p.hardenLinks el clean
+      else clean
+  else some clean
+
 /-- `sanitizeAttrs`; `none` = panic -/
 def Policy.sanitizeAttrs (p : Policy) (el : Bytes) (attrs : List Attr) (aps : AttrRules) :
     Option (List Attr) :=
   if attrs.isEmpty then some attrs else
-  let hasStyle := p.hasStylePolicies el
-  let clean := attrs.filterMap (p.filterAttr el aps hasStyle)
+  let clean := attrs.filterMap (p.filterAttr el aps (p.hasStylePolicies el))
   if clean.isEmpty then some clean else
-  let step2 : Option (List Attr) :=
-    if linkable el then
-      let afterUrl : Option (List Attr) :=
-        if p.requireParseableURLs then mapMOpt (p.urlPassAttr el) clean else some clean
-      afterUrl.map fun clean =>
-        if (p.requireNoFollow || p.requireNoFollowFullyQualifiedLinks || p.requireNoReferrer ||
-            p.requireNoReferrerFullyQualifiedLinks || p.addTargetBlankToFullyQualifiedLinks) &&
-            clean.length > 0 && isHrefElement el then
-          p.hardenLinks el clean
-        else clean
-    else some clean
-  step2.map fun clean =>
-    let clean :=
-      if p.requireCrossOriginAnonymous && clean.length > 0 && isCrossOriginElement el then
-        if clean.any (·.key == b!"crossorigin") then
-          clean.map fun a => if a.key == b!"crossorigin" then ⟨a.key, b!"anonymous"⟩ else a
-        else clean ++ [⟨b!"crossorigin", b!"anonymous"⟩]
-      else clean
-    match p.requireSandboxOnIFrame with
-    | some allowed =>
-      if el == b!"iframe" then
-        if clean.any (·.key == b!"sandbox") then
-          clean.map fun a =>
-            if a.key == b!"sandbox" then ⟨a.key, joinBytes [32] (dedupKeep allowed (fields a.val) [])⟩
-            else a
-        else clean ++ [⟨b!"sandbox", []⟩]
-      else clean
-    | none => clean
+  (p.linkPasses el clean).map fun clean => p.forceSandbox el (p.forceCrossOrigin el clean)
 
 /-! ### the token loop -/
 
@@ -398,11 +415,9 @@ structure LoopState where
   mostRecentlyStartedToken : Bytes := []
   deriving Repr, BEq, DecidableEq
 
-/-- one `buff.WriteString` call; `checked = false` for the comment write whose error the
-    code ignores -/
+/-- one `buff.WriteString` call (every call's error is checked by the loop) -/
 structure Write where
   data : Bytes
-  checked : Bool := true
   deriving Repr, BEq, DecidableEq
 
 def isVoidElement (el : Bytes) : Bool :=
@@ -412,7 +427,7 @@ def isVoidElement (el : Bytes) : Bool :=
 
 def isScriptOrStyle (n : Bytes) : Bool := n == b!"script" || n == b!"style"
 
-def Policy.space (p : Policy) : List Write := if p.addSpaces then [⟨[32], true⟩] else []
+def Policy.space (p : Policy) : List Write := if p.addSpaces then [⟨[32]⟩] else []
 
 /-- element lookup shared by the start-tag and self-closing cases -/
 def Policy.attrRulesFor (p : Policy) (el : Bytes) : Option AttrRules :=
@@ -420,80 +435,113 @@ def Policy.attrRulesFor (p : Policy) (el : Bytes) : Option AttrRules :=
   | some aps => some aps
   | none => p.matchRegex el
 
+/-- `token.Attr = p.sanitizeAttrs(…)` guarded by `len(token.Attr) != 0` -/
+def Policy.cleanAttrs (p : Policy) (t : Token) (aps : AttrRules) : Option (List Attr) :=
+  if t.attrs.isEmpty then some t.attrs else p.sanitizeAttrs t.data t.attrs aps
+
+/-- `if !skipElementContent { buff.WriteString(token.String()) }` -/
+def emitUnlessSkipping (st : LoopState) (t : Token) : List Write :=
+  if st.skipElementContent then [] else [⟨t.render⟩]
+
+/-- a disallowed element: start skipping its content if it is in the skip set (and not void) -/
+def Policy.enterSkip (p : Policy) (st : LoopState) (el : Bytes) : LoopState :=
+  if p.setOfElementsToSkipContent.contains el && !isVoidElement el then
+    { st with skipElementContent := true, skippingElementsCount := st.skippingElementsCount + 1 }
+  else st
+
+/-- an element dropped for lack of attributes: remember to drop its closing tag (not for void) -/
+def pushDropped (st : LoopState) (el : Bytes) : LoopState :=
+  if isVoidElement el then st
+  else { st with skipClosingTag := true, closingTagToSkipStack := el :: st.closingTagToSkipStack }
+
+/-- a kept element nested in a dropped element of the same name leaves a marker -/
+def markKept (st : LoopState) (el : Bytes) : LoopState :=
+  if st.skipClosingTag && !isVoidElement el && st.closingTagToSkipStack.contains el then
+    { st with closingTagToSkipStack := (47 :: el) :: st.closingTagToSkipStack }
+  else st
+
+def Policy.stepStart (p : Policy) (st : LoopState) (t : Token) : Option (LoopState × List Write) :=
+  let st := { st with mostRecentlyStartedToken := t.data }
+  if isScriptOrStyle t.data && !p.allowUnsafe then some (st, [])
+  else match p.attrRulesFor t.data with
+    | none => some (p.enterSkip st t.data, p.space)
+    | some aps =>
+      match p.cleanAttrs t aps with
+      | none => none
+      | some attrs =>
+        if attrs.isEmpty && !p.allowNoAttrs t.data then some (pushDropped st t.data, p.space)
+        else
+          let st := markKept st t.data
+          some (st, emitUnlessSkipping st { t with attrs := attrs })
+
+def Policy.stepSelfClosing (p : Policy) (st : LoopState) (t : Token) : Option (LoopState × List Write) :=
+  let st := { st with mostRecentlyStartedToken := t.data }
+  if isScriptOrStyle t.data && !p.allowUnsafe then some (st, [])
+  else match p.attrRulesFor t.data with
+    | none => some (st, p.space)
+    | some aps =>
+      match p.cleanAttrs t aps with
+      | none => none
+      | some attrs =>
+        if attrs.isEmpty && !p.allowNoAttrs t.data then some (st, p.space)
+        else some (st, emitUnlessSkipping st { t with attrs := attrs })
+
+/-- the element is allowed by name, or else by some pattern -/
+def Policy.explicitEl (p : Policy) (el : Bytes) : Bool := p.elsAndAttrs.contains el
+def Policy.patternEl (p : Policy) (el : Bytes) : Bool :=
+  !p.explicitEl el && p.elsMatchingAndAttrs.any fun (r, _) => r.test el
+
+/-- the closing tag of a disallowed skip-content element ends one level of skipping -/
+def Policy.leaveSkip (p : Policy) (st : LoopState) (el : Bytes) : LoopState :=
+  if !p.explicitEl el && p.setOfElementsToSkipContent.contains el && !p.patternEl el then
+    let c := st.skippingElementsCount - 1
+    { st with skippingElementsCount := c,
+              skipElementContent := if c == 0 then false else st.skipElementContent }
+  else st
+
+/-- `if mostRecentlyStartedToken == normaliseElementName(token.Data) { … = "" }` -/
+def clearRecent (st : LoopState) (el : Bytes) : LoopState :=
+  if st.mostRecentlyStartedToken == el then { st with mostRecentlyStartedToken := [] } else st
+
+/-- the closing tag of an element dropped for lack of attributes pops the stack -/
+def popDropped (st : LoopState) : LoopState :=
+  let stack := st.closingTagToSkipStack.tail
+  { st with closingTagToSkipStack := stack,
+            skipClosingTag := if stack.isEmpty then false else st.skipClosingTag }
+
+/-- the marker of a kept element: only forget it -/
+def popMarker (st : LoopState) (el : Bytes) : LoopState :=
+  if st.skipClosingTag && st.closingTagToSkipStack.head? == some (47 :: el) then
+    { st with closingTagToSkipStack := st.closingTagToSkipStack.tail }
+  else st
+
+def Policy.stepEnd (p : Policy) (st : LoopState) (t : Token) : Option (LoopState × List Write) :=
+  let st := clearRecent st t.data
+  if isScriptOrStyle t.data && !p.allowUnsafe then some (st, [])
+  else if st.skipClosingTag && st.closingTagToSkipStack.isEmpty then none   -- index out of range
+  else if st.skipClosingTag && st.closingTagToSkipStack.head? == some t.data then
+    some (popDropped st, p.space)
+  else
+    let st := p.leaveSkip (popMarker st t.data) t.data
+    if !p.explicitEl t.data && !p.patternEl t.data then some (st, p.space)
+    else some (st, emitUnlessSkipping st t)
+
+def Policy.stepText (p : Policy) (st : LoopState) (t : Token) : List Write :=
+  if st.skipElementContent then []
+  else if isScriptOrStyle st.mostRecentlyStartedToken then
+    (if p.allowUnsafe then [⟨t.data⟩] else [])
+  else [⟨t.render⟩]
+
 /-- One iteration of the `for` loop in `sanitize` for a non-error token.
     `none` = the Go code panics on this token. -/
 def Policy.step (p : Policy) (st : LoopState) (t : Token) : Option (LoopState × List Write) :=
   match t.tt with
   | .doctype => some (st, [])
-  | .comment => some (st, if p.allowComments then [⟨t.render, true⟩] else [])
-  | .start =>
-    let st := { st with mostRecentlyStartedToken := t.data }
-    if isScriptOrStyle t.data && !p.allowUnsafe then some (st, [])
-    else match p.attrRulesFor t.data with
-    | none =>
-      let st := if p.setOfElementsToSkipContent.contains t.data && !isVoidElement t.data then
-          { st with skipElementContent := true, skippingElementsCount := st.skippingElementsCount + 1 }
-        else st
-      some (st, p.space)
-    | some aps =>
-      match (if t.attrs.isEmpty then some t.attrs else p.sanitizeAttrs t.data t.attrs aps) with
-      | none => none
-      | some attrs =>
-        if attrs.isEmpty && !p.allowNoAttrs t.data then
-          if isVoidElement t.data then some (st, p.space)   -- no closing tag to skip
-          else
-          some ({ st with skipClosingTag := true,
-                          closingTagToSkipStack := t.data :: st.closingTagToSkipStack }, p.space)
-        else
-          -- a kept element nested in a dropped element of the same name leaves a marker
-          let st := if st.skipClosingTag && !isVoidElement t.data &&
-                        st.closingTagToSkipStack.contains t.data then
-              { st with closingTagToSkipStack := (47 :: t.data) :: st.closingTagToSkipStack }
-            else st
-          if !st.skipElementContent then some (st, [⟨({ t with attrs := attrs } : Token).render, true⟩])
-          else some (st, [])
-  | .end_ =>
-    let st := if st.mostRecentlyStartedToken == t.data then { st with mostRecentlyStartedToken := [] } else st
-    if isScriptOrStyle t.data && !p.allowUnsafe then some (st, [])
-    else if st.skipClosingTag && st.closingTagToSkipStack.isEmpty then none
-    else
-    -- the marker of a kept element: only forget it, then carry on as for any end tag
-    let isMarker := st.skipClosingTag && st.closingTagToSkipStack.head? == some (47 :: t.data)
-    let st := if isMarker then { st with closingTagToSkipStack := st.closingTagToSkipStack.tail } else st
-    if !isMarker && st.skipClosingTag && st.closingTagToSkipStack.head? == some t.data then
-      let stack := st.closingTagToSkipStack.tail
-      some ({ st with closingTagToSkipStack := stack,
-                      skipClosingTag := if stack.isEmpty then false else st.skipClosingTag }, p.space)
-    else
-      let explicit := p.elsAndAttrs.contains t.data
-      let isMatch := !explicit && p.elsMatchingAndAttrs.any fun (r, _) => r.test t.data
-      let st :=
-        if !explicit && p.setOfElementsToSkipContent.contains t.data && !isMatch then
-          let c := st.skippingElementsCount - 1
-          { st with skippingElementsCount := c,
-                    skipElementContent := if c == 0 then false else st.skipElementContent }
-        else st
-      if !explicit && !isMatch then some (st, p.space)
-      else if !st.skipElementContent then some (st, [⟨t.render, true⟩])
-      else some (st, [])
-  | .selfClosing =>
-    let st := { st with mostRecentlyStartedToken := t.data }
-    if isScriptOrStyle t.data && !p.allowUnsafe then some (st, [])
-    else match p.attrRulesFor t.data with
-    | none => some (st, p.space)
-    | some aps =>
-      match (if t.attrs.isEmpty then some t.attrs else p.sanitizeAttrs t.data t.attrs aps) with
-      | none => none
-      | some attrs =>
-        if attrs.isEmpty && !p.allowNoAttrs t.data then some (st, p.space)
-        else if !st.skipElementContent then some (st, [⟨({ t with attrs := attrs } : Token).render, true⟩])
-        else some (st, [])
-  | .text =>
-    if !st.skipElementContent then
-      if isScriptOrStyle st.mostRecentlyStartedToken then
-        some (st, if p.allowUnsafe then [⟨t.data, true⟩] else [])
-      else some (st, [⟨t.render, true⟩])
-    else some (st, [])
+  | .comment => some (st, if p.allowComments then [⟨t.render⟩] else [])
+  | .start => p.stepStart st t
+  | .end_ => p.stepEnd st t
+  | .selfClosing => p.stepSelfClosing st t
+  | .text => some (st, p.stepText st t)
 
 /-- run the loop over a token list: the writes in order, and whether it panicked -/
 def Policy.run (p : Policy) : LoopState → List Token → List Write × Bool
@@ -519,20 +567,20 @@ def Policy.sanitize (p : Policy) (input : Bytes) : Bytes :=
 
 /-! ### writers that can fail (C16) -/
 
-/-- Feed writes to a destination whose `k`-th call (0-based) fails; a transient failure
-    affects only that call, a permanent one every later call too.  Returns the accepted
-    writes, the number of write calls made, and whether an error is returned. -/
+/-- does the `n`-th write call (0-based) fail, for a destination that starts failing at call
+    `k` — only that call if the fault is transient, every later one too if it is permanent -/
+def callFails (k : Nat) (permanent : Bool) (n : Nat) : Bool :=
+  if permanent then decide (k ≤ n) else k == n
+
+/-- Feed the loop's writes to a destination with an injected fault (`none` = fault-free).
+    Returns the accepted writes, the number of write calls made, and whether the loop
+    returns an error.  The loop stops at the first failed call. -/
 def feed (failAt : Option Nat) (permanent : Bool) : Nat → List Write → List Bytes × Nat × Bool
   | n, [] => ([], n, false)
   | n, w :: ws =>
-    let fails : Bool := match failAt with
-      | some k => if permanent then decide (k ≤ n) else k == n
-      | none => false
-    if fails then
-      if w.checked then ([], n + 1, true)
-      else feed failAt permanent (n + 1) ws          -- error ignored (comment write)
+    if (match failAt with | some k => callFails k permanent n | none => false) then ([], n + 1, true)
     else
-      let (acc, m, e) := feed failAt permanent (n + 1) ws
-      (w.data :: acc, m, e)
+      let r := feed failAt permanent (n + 1) ws
+      (w.data :: r.1, r.2.1, r.2.2)
 
 end BM
